@@ -80,6 +80,39 @@ def _wait(pid, timeout=30.0):
         time.sleep(0.0005)
 
 
+def stack_path(pid: int) -> str:
+    from vsim.world import scratch_base
+    return str(scratch_base() / f"vsim-stack-{pid}.txt")
+
+
+def arm_stack_dump() -> None:
+    """In a simulated process: SIGUSR1 dumps the Python stack (works inside C calls such as re) to a file."""
+    import faulthandler
+    try:
+        f = open(stack_path(os.getpid()), "w")
+        faulthandler.register(signal.SIGUSR1, file=f, all_threads=False)
+        SUBJECT_STATE["_stack_file"] = f     # keep the file object alive
+    except Exception:
+        pass
+
+
+def _stack_of(pid: int) -> str:
+    """Ask a (hung) child where it is; returns the faulthandler dump, most recent call first."""
+    path = stack_path(pid)
+    try:
+        os.kill(pid, signal.SIGUSR1)
+        time.sleep(0.4)
+        with open(path) as f:
+            txt = f.read()
+    except (OSError, ProcessLookupError):
+        txt = ""
+    try:
+        os.unlink(path)
+    except OSError:
+        pass
+    return txt[-3000:]
+
+
 def _run(fn_name, arg):
     try:
         return {"ok": True, "value": resolve(fn_name)(arg)}
@@ -153,12 +186,16 @@ def _zygote_main(rfd, wfd, preload):
             try:
                 out = _recv(cr, req.get("timeout", 120))
             except TimeoutError:
+                out = {"ok": False, "kind": "timeout", "stack": _stack_of(pid)}
                 os.kill(pid, signal.SIGKILL)
-                out = {"ok": False, "kind": "timeout"}
             except EOFError:
                 out = {"ok": False, "kind": "died"}
             os.close(cr)
             out["status"] = _wait(pid)
+            try:
+                os.unlink(stack_path(pid))
+            except OSError:
+                pass
             _send(wfd, out)
         elif kind == "spawn":
             req_r, req_w = os.pipe()
